@@ -6,6 +6,8 @@ use std::sync::atomic::Ordering;
 use std::sync::Arc;
 
 pub const VERIF_DIR: &str = "/verif";
+/// Where evidence and replay files are written: /verif, or a scratch directory for experiments (VERIF_OUT).
+pub fn out_dir() -> String { std::env::var("VERIF_OUT").unwrap_or_else(|_| VERIF_DIR.to_string()) }
 
 #[derive(Clone, Debug)]
 pub struct KnownFinding {
@@ -56,7 +58,7 @@ pub fn tier_from_env(arg: Option<&str>) -> String {
 }
 
 pub fn write_replay(property: &str, f: &Found) -> String {
-    let dir = format!("{}/replays/{}", VERIF_DIR, property);
+    let dir = format!("{}/replays/{}", out_dir(), property);
     let _ = std::fs::create_dir_all(&dir);
     let h = hash_bytes(hash_bytes(0xcbf29ce484222325, f.scenario.as_bytes()), &f.choices);
     let path = format!("{}/{:016x}.json", dir, h);
@@ -93,7 +95,7 @@ pub fn finish(ctx: &CheckCtx, ex: &Explorer, sum: Summary) -> i32 {
     let found = s.found.lock().unwrap();
     let wit = s.witnesses.load(Ordering::Relaxed);
     let mut wit_hit = Vec::new(); let mut wit_miss = Vec::new();
-    for (i, n) in sum.witness_names.iter().enumerate() { if wit & (1 << i) != 0 { wit_hit.push(*n); } else { wit_miss.push(*n); } }
+    for (i, n) in sum.witness_names.iter().enumerate() { if *n == "-" { continue; } if wit & (1u64 << i) != 0 { wit_hit.push(*n); } else { wit_miss.push(*n); } }
     let capped = s.capped.load(Ordering::Relaxed);
     let mut samples: Vec<Value> = s.samples.lock().unwrap().iter().map(|x| json!(x)).collect();
     if samples.is_empty() { samples.push(json!(format!("(no sample recorded; {} executions)", execs))); }
@@ -135,8 +137,8 @@ pub fn finish(ctx: &CheckCtx, ex: &Explorer, sum: Summary) -> i32 {
         "wall_s": wall,
         "violations": found.len(),
     });
-    let _ = std::fs::create_dir_all(format!("{}/evidence", VERIF_DIR));
-    let path = format!("{}/evidence/{}.json", VERIF_DIR, ctx.property);
+    let _ = std::fs::create_dir_all(format!("{}/evidence", out_dir()));
+    let path = format!("{}/evidence/{}.json", out_dir(), ctx.property);
     if let Err(e) = std::fs::write(&path, serde_json::to_string_pretty(&ev).unwrap()) {
         eprintln!("machinery: cannot write {}: {}", path, e);
         return 2;
@@ -144,7 +146,7 @@ pub fn finish(ctx: &CheckCtx, ex: &Explorer, sum: Summary) -> i32 {
     println!("[{}] tier={} executions={} distinct_outcomes={} states={} transitions={} max_points={} max_devs={} panics={} wall={:.1}s{}",
         ctx.property, ctx.tier, execs, outcomes, states, s.transitions.load(Ordering::Relaxed), s.max_points.load(Ordering::Relaxed),
         s.max_devs.load(Ordering::Relaxed), s.panics.load(Ordering::Relaxed), wall, if capped { " CAPPED (time limit; bound not completed)" } else { "" });
-    if !sum.witness_names.is_empty() { println!("[{}] coverage witnesses hit {}/{}{}", ctx.property, wit_hit.len(), sum.witness_names.len(), if wit_miss.is_empty() { String::new() } else { format!("; not hit: {:?}", wit_miss) }); }
+    if !sum.witness_names.is_empty() { println!("[{}] coverage witnesses hit {}/{}{}", ctx.property, wit_hit.len(), wit_hit.len() + wit_miss.len(), if wit_miss.is_empty() { String::new() } else { format!("; not hit: {:?}", wit_miss) }); }
     if let Some(m) = s.machinery_error.lock().unwrap().as_ref() {
         eprintln!("machinery error: {}", m);
         return 2;
